@@ -364,6 +364,82 @@ pub fn corpus_f9() -> gen::GWorld {
     w
 }
 
+/// The sufficiency clause with the crates.io index reachable: a failing git-revision package is
+/// first sent to the closest published version at or below it (which may be strictly lower than
+/// its bare version), then from there to the revision.  Certify everything proposed, vet again.
+fn online_git_heal(r: &mut Report, w: &gen::GWorld, tag: &str) {
+    let store = w.store();
+    let md = &w.md;
+    let Ok(rep) = guarded(|| resolver::resolve(md, None, &store)) else { return };
+    let Conclusion::FailForVet(fail) = &rep.conclusion else { return };
+    if !fail.failures.iter().any(|(i, _)| rep.graph.nodes[*i].version.git_rev.is_some()) {
+        return;
+    }
+    let mut remote = cmd::Remote::default();
+    let mut published_txt = String::new();
+    for node in rep.graph.nodes.iter() {
+        let l = remote.registry.entry(node.name.to_owned()).or_default();
+        let mut add = |v: semver::Version| {
+            if !l.iter().any(|x| x.version == v) {
+                l.push(cmd::RegVersion { version: v, user: Some(1), day: 0 });
+            }
+        };
+        add(semver::Version::new(0, 0, 1));
+        // the bare version of a git revision is published for some packages only
+        if node.version.git_rev.is_none() || (node.version.semver.major + node.name.len() as u64) % 2 == 0 {
+            add(node.version.semver.clone());
+        }
+    }
+    for (n, l) in &remote.registry {
+        published_txt.push_str(&format!("{n}: {:?}\n", l.iter().map(|x| x.version.to_string()).collect::<Vec<_>>()));
+    }
+    remote.install();
+    let cfg = mock_cfg_args(md, ["cargo", "vet", "--output-format", "json"].into_iter());
+    let network = Network::acquire(&cfg);
+    let sug = match guarded(|| rep.compute_suggest(&cfg, &store, network.as_ref())) {
+        Ok(Ok(Some(s))) => s,
+        Ok(_) => return,
+        Err(p) => {
+            r.fail("oracle", "C17/online/suggest-panics", p, tag);
+            return;
+        }
+    };
+    r.evaluations += 1;
+    let (_, world_line) = wire::enc_world(md, &store);
+    let case = format!("{tag} (crates.io index reachable)\npublished versions:\n{published_txt}{world_line}");
+    let mapper = CriteriaMapper::new(&store.audits.criteria);
+    let mut audits2 = store.audits.clone();
+    let mut proposed = Vec::new();
+    for s in &sug.suggestions {
+        let p = &rep.graph.nodes[s.package];
+        let crit: Vec<_> = mapper.criteria_names(&s.suggested_criteria).map(|c| gen::sp(c.to_owned())).collect();
+        proposed.push(format!("{} {:?} -> {}", p.name, s.suggested_diff.from.as_ref().map(|v| v.to_string()), s.suggested_diff.to));
+        let kind = match &s.suggested_diff.from {
+            None => AuditKind::Full { version: s.suggested_diff.to.clone() },
+            Some(f) => AuditKind::Delta { from: f.clone(), to: s.suggested_diff.to.clone() },
+        };
+        audits2.audits.entry(p.name.to_owned()).or_default().push(AuditEntry { who: vec![], criteria: crit, kind, importable: true, notes: None, aggregated_from: vec![], is_fresh_import: false });
+    }
+    let mut store2 = Store::mock(store.config.clone(), audits2, store.imports.clone());
+    store2.live_imports = store.live_imports.clone();
+    r.oracle_checked += 1;
+    r.count("online-git-heal");
+    if let Ok(rep2) = guarded(|| resolver::resolve(md, None, &store2)) {
+        if let Conclusion::FailForVet(f2) = &rep2.conclusion {
+            let had_suggestion = f2.failures.iter().all(|(i, _)| sug.suggestions.iter().any(|s| rep.graph.nodes[s.package].name == rep2.graph.nodes[*i].name));
+            let shared = f2.failures.iter().any(|(i, _)| {
+                let name = rep2.graph.nodes[*i].name;
+                fail.failures.iter().filter(|(j, _)| rep.graph.nodes[*j].name == name).count() >= 2
+            });
+            if had_suggestion && r.prop == "C17" {
+                let unhealed: Vec<String> = f2.failures.iter().map(|(i, a)| format!("{}:{} missing {}", rep2.graph.nodes[*i].name, rep2.graph.nodes[*i].version, bits(&a.criteria_failures))).collect();
+                let sig = if shared { "C17/dedup-drops-criteria" } else { "C17/online/suggestions-do-not-heal" };
+                r.fail("oracle", sig, format!("after certifying all proposed audits {proposed:?} vet still fails: {unhealed:?}"), &case);
+            }
+        }
+    }
+}
+
 pub fn run(r: &mut Report) {
     let mut d = Driver::spawn();
     let (shard, nshards) = shard();
@@ -380,6 +456,9 @@ pub fn run(r: &mut Report) {
         let nf = r.failures.len();
         check_world(r, &mut d, &w, &format!("random#{i}"));
         r.minimise_last(nf, &w, &mut |sr, cand| check_world(sr, &mut d, cand, "minimising"));
+        if r.prop == "C17" {
+            online_git_heal(r, &w, &format!("random#{i}"));
+        }
     }
     r.count_n("driver-requests", d.requests);
 }
